@@ -208,9 +208,40 @@ Definition negdst_rule : posix :=
     (Some (mkDst [71; 77; 84] 0 (mkPrule (DM 10 5 0) 7200) (mkPrule (DM 3 5 0) 3600))).
 Definition negdst_instant : Z := 63771327000.
 
+(* guard_apart without its clause on the SIGN of the saving: the same distances (with |saving| <= 24 h) *)
+Definition guard_distance (r : posix) : bool :=
+  match r.(p_dst) with
+  | None => true
+  | Some ds =>
+      let s_lo := yday_lo ds.(d_start).(pr_date) * DAY + ds.(d_start).(pr_time) in
+      let s_hi := yday_hi ds.(d_start).(pr_date) * DAY + ds.(d_start).(pr_time) in
+      let e_lo := yday_lo ds.(d_end).(pr_date) * DAY + ds.(d_end).(pr_time) in
+      let e_hi := yday_hi ds.(d_end).(pr_date) * DAY + ds.(d_end).(pr_time) in
+      let a := Z.abs r.(p_off) + Z.abs ds.(d_off) in
+      (MARGIN + a <=? s_lo) && (MARGIN + a <=? e_lo) &&
+      (s_hi + MARGIN + a <=? 365 * DAY) && (e_hi + MARGIN + a <=? 365 * DAY) &&
+      ((s_hi + 28 * DAY + a <=? e_lo) || (e_hi + 28 * DAY + a <=? s_lo)) &&
+      (Z.abs (ds.(d_off) - r.(p_off)) <=? DAY)
+  end.
+
+Lemma guard_apart_is_distance_and_positive_saving r :
+  guard_apart r = guard_distance r &&
+                  match r.(p_dst) with Some ds => r.(p_off) <? ds.(d_off) | None => true end.
+Proof.
+  unfold guard_apart, guard_distance. destruct (p_dst r) as [ds|]; [|reflexivity].
+  cbv zeta. destruct (0 <? d_off ds - p_off r) eqn:E.
+  - replace (p_off r <? d_off ds) with true by lia.
+    replace (Z.abs (d_off ds - p_off r)) with (d_off ds - p_off r) by lia.
+    rewrite !andb_true_r. reflexivity.
+  - replace (p_off r <? d_off ds) with false by lia.
+    rewrite !andb_false_r. cbn [andb]. rewrite ?andb_false_r. reflexivity.
+Qed.
+
+(* the ONLY failing clause of the guard is the sign of the saving *)
 Lemma tzstr_posix_negative_dst_refuted_lemma :
   exists r u z o,
-    wf_posix r = true /\ guard_d8 r = true /\ guard_apart r = false /\
+    wf_posix r = true /\ guard_d8 r = true /\ guard_distance r = true /\
+    (exists ds, r.(p_dst) = Some ds /\ ds.(d_off) < r.(p_off)) /\
     tzstr_init (render_posix r) false = Ok z /\ observe_utc z u = Ok o /\
     o.(o_off) <> fst (fst (posix_observe r u)) /\ o.(o_wall) - o.(o_off) <> u.
 Proof.
@@ -218,6 +249,7 @@ Proof.
   split; [vm_compute; reflexivity|].
   split; [vm_compute; reflexivity|].
   split; [vm_compute; reflexivity|].
+  split; [eexists; split; [reflexivity|vm_compute; reflexivity]|].
   split; [vm_compute; reflexivity|].
   split; [vm_compute; reflexivity|].
   split; vm_compute; discriminate.
